@@ -40,6 +40,7 @@ func (dc *dataChunk) Clear() error {
 	dc.writingHead = 0
 
 	verifPoint("fs.remove", dc.path)
+	verifPoint("cg.remove", dc.chunkid)
 	return utils.Remove(dc.path)
 }
 
@@ -55,6 +56,7 @@ func (dc *dataChunk) AppendRecord(wrec *WriteRecord) {
 }
 
 func (dc *dataChunk) AppendRecordGC(wrec *WriteRecord) (offset uint32, err error) {
+	verifPoint("cg.head", dc.chunkid)
 	dc.Lock()
 	wrec.pos.ChunkID = dc.chunkid
 	offset = dc.writingHead
@@ -66,12 +68,14 @@ func (dc *dataChunk) AppendRecordGC(wrec *WriteRecord) (offset uint32, err error
 		dc.size = dc.writingHead
 	}
 	dc.Unlock()
+	verifPoint("cg.buf", dc.chunkid, offset)
 
 	_, err = dc.gcWriter.append(wrec)
 	if err != nil {
 		logger.Fatalf("fail to append, stop! err: %v", err)
 	}
 
+	verifPoint("cg.flush", dc.chunkid)
 	if err = dc.gcWriter.wbuf.Flush(); err != nil {
 		logger.Fatalf("write data fail, stop! err: %v", err)
 		return 0, err
@@ -230,6 +234,7 @@ func (dc *dataChunk) endGCWriting() (err error) {
 // process kill leaves superseded records in this file while the records or delete markers that supersede
 // them have died with their source file.
 func (dc *dataChunk) dropStaleTail() (err error) {
+	verifPoint("cg.tail", dc.chunkid)
 	if !dc.rewriting || dc.writingHead >= dc.size {
 		return
 	}
